@@ -409,7 +409,7 @@ func trunc(s string) string {
 
 func init() {
 	p := register(&Prop{ID: "C13", Level: "exploration",
-		Rule: "exhaustive: (scripts) every byte string of length<=2 plus length 3 over a 68-symbol alphabet (quick) / every byte string of length<=3 (thorough), every string of length 4 (thorough: 5) over a 14-symbol control-flow / OP_RETURN / push-header alphabet, and every truncation at every position of 40 longer well-formed scripts, through DecodeParts, Parse/Unparse, hex and JSON against the reference tokenizer; (parts) every list of <=3 items with lengths in {1,2,75,76,255,256,65535,65536} x 3 fill patterns through EncodeParts/PushDataPrefix/DecodeParts/AppendPushDataArray/Parse; (asm) every sequence of length<=2 (quick) / <=3 (thorough) over {all 178 non-push opcode bytes, minimal pushes of 2,3,75,76,255,256 bytes, 8 pushes whose hex reads as a decimal number} that is not a data script through ToASM/NewFromASM. distinct_nontrivial = distinct (token count, well-formedness, has-return) classes x length for scripts + distinct part-length vectors + distinct asm strings",
+		Rule: "exhaustive: (scripts) every byte string of length<=2 plus length 3 over a 68-symbol alphabet (quick) / every byte string of length<=3 (thorough), every string of length 4 (thorough: 5) over a 14-symbol control-flow / OP_RETURN / push-header alphabet, and every truncation at every position of 40 longer well-formed scripts, through DecodeParts, Parse/Unparse, hex and JSON against the reference tokenizer; (parts) every list of <=3 items with lengths in {1,2,75,76,255,256,65535,65536} x 3 fill patterns through EncodeParts/PushDataPrefix/DecodeParts/AppendPushDataArray/Parse; (asm) every sequence (the empty one included) of length<=2 (quick) / <=3 (thorough) over {all 178 non-push opcode bytes, minimal pushes of 2,3,75,76,255,256 bytes, 8 pushes whose hex reads as a decimal number} that is not a data script through ToASM/NewFromASM. distinct_nontrivial = distinct (token count, well-formedness, has-return) classes x length for scripts + distinct part-length vectors + distinct asm strings",
 	})
 	sS := NewSpace(p, "scripts", c13ScriptCheck)
 	sP := NewSpace(p, "parts", c13PartsCheck)
@@ -534,7 +534,7 @@ func init() {
 			}
 			return fs
 		}}
-		for l := 1; l <= maxA; l++ {
+		for l := 0; l <= maxA; l++ { // l = 0: the empty script, whose rendering is the empty string
 			n := uint64(1)
 			for i := 0; i < l; i++ {
 				n *= ns
